@@ -100,9 +100,10 @@ def reqf? (fs : List String) : Option ReqF :=
   match fs with
   | [scheme, method, path, query, host, port, body, mp, ue, hdrs] => do
     let body ← if body = "N" then some none else (decB body).map some
+    let bd ← if mp = "N" then some none else (decB mp).map some
     pure { scheme := ← decB scheme, method := ← decB method, path := ← decB path,
            query := ← pairs? query, host := ← decB host, port := ← port.toNat?,
-           body := body, multipart := ← pairs? mp, urlencoded := ← pairs? ue, headers := ← pairs? hdrs }
+           body := body, boundary := bd, urlencoded := ← pairs? ue, headers := ← pairs? hdrs }
   | _ => none
 
 def keyOp (fs : List String) : Option String :=
@@ -114,7 +115,7 @@ def keyOp (fs : List String) : Option String :=
   | _ => none
 
 def emptyOpts : HashOpts := ⟨false, false, false, [], [], []⟩
-def emptyReq : ReqF := ⟨[], [], [], [], [], 0, none, [], [], []⟩
+def emptyReq : ReqF := ⟨[], [], [], [], [], 0, none, none, [], []⟩
 
 /-- the key function of the k-mode: `keyOf` on the option sets and request shapes defined so far — the model
     computes the keys itself from the request parts instead of being told the equality classes of `_hash` -/
